@@ -663,9 +663,9 @@ func main() {
 		ID: "C10", Model: "C10", Gen: gen, Impl: impl, Oracle: oracle,
 		Cases: func(th bool) int {
 			if th {
-				return 60000
+				return 40000
 			}
-			return 6000
+			return 3000
 		},
 		Fixed: fixed,
 		Extra: extra,
